@@ -528,9 +528,9 @@ Lemma py_mode_spec : forall l, py_mode_o l = mode_l l.
 Proof. intros. apply mode_refines_l. Qed.
 
 Lemma pydict_grouped_refines_l : forall m keys c, List.length keys = List.length c ->
-  py_grouped_num m keys c = impute_grouped_spec m keys c.
+  py_grouped m keys c = impute_grouped_spec m keys c.
 Proof.
-  intros [| | |k| |] keys c L; unfold py_grouped_num; cbn [impute_grouped_spec].
+  intros [| | |k| |] keys c L; unfold py_grouped; cbn [impute_grouped_spec].
   - apply (grouped_stat_refines py_mean mean_l keys c py_mean_spec L).
   - apply (grouped_stat_refines py_median_o median_l keys c py_median_spec L).
   - apply (grouped_stat_refines py_mode_o mode_l keys c py_mode_spec L).
@@ -539,11 +539,11 @@ Proof.
   - apply (grouped_fill_refines false keys c L).
 Qed.
 
-(* _perform_imputation with group_by_features on a numeric column = the grouped spec (early return included) *)
+(* _perform_imputation with group_by_features = the grouped spec (early return included) *)
 Lemma pydict_perform_grouped_refines_l : forall m keys c, List.length keys = List.length c ->
-  py_perform_imputation true m (Some keys) c = Some (impute_grouped_spec m keys c).
+  py_perform_imputation m (Some keys) c = impute_grouped_spec m keys c.
 Proof.
   intros m keys c L. unfold py_perform_imputation. destruct (has_null c) eqn:E; cbn [negb].
-  - unfold py_grouped. destruct m; try (rewrite pydict_grouped_refines_l by auto; reflexivity). reflexivity.
-  - f_equal. symmetry. apply preserves_no_null_id; auto. apply impute_grouped_spec_preserves; auto.
+  - apply pydict_grouped_refines_l. exact L.
+  - symmetry. apply preserves_no_null_id; auto. apply impute_grouped_spec_preserves; auto.
 Qed.
